@@ -152,7 +152,8 @@ theorem call_law (cfg : RunCfg) (f : Nat) (name : Bytes) (b0 : Option Nat) (s0 :
         if vs.length ≠ fd.params.length then trap cfg .callArity sp st1
         else
           (execBlock cfg f fd.body
-              (pushScope st1 (.params fd.id) fd.chain (paramSlots fd.params ids vs))).bind fun flow st3 =>
+              (pushScope st1 (.params fd.id) fd.chain (paramSlots fd.params ids vs)
+                (ids.filterMap id))).bind fun flow st3 =>
             match flow with
             | .cont => .ok .null (popScope st3 st1.chain)
             | .ret v => .ok v (popScope st3 st1.chain)
